@@ -137,7 +137,7 @@ def st_rect_case(draw):
     def f(t):
         return float(((geom.box_min_facet(W, l2 + t * v - u1, u2 + t * v - l1) + W @ svec) / nrm).min())
 
-    target = draw(st.sampled_from([1, -1])) * draw(st.sampled_from([0.1, 0.3, 1.0] if small else gr.MARGIN_LEVELS)) * scale
+    target = draw(st.sampled_from([1, -1])) * draw(st.sampled_from(gr.MARGIN_LEVELS)) * scale
     t = gr.solve_shift(f, target, -1e4 * scale, 1e4 * scale)
     r2 = {"lo": (l2 + t * v).tolist(), "hi": (u2 + t * v).tolist()}
     t = draw(gr.st_offset(m))
